@@ -323,3 +323,10 @@ func sortedKeys(m map[string]int64) []string {
 	sort.Strings(ks)
 	return ks
 }
+
+// NewDetachedCtx builds a context outside the case loop (worker processes that
+// must regenerate exactly the case their parent is running).
+func NewDetachedCtx(prop, phase, tier string, seed int64, idx int, tmp string) *Ctx {
+	return &Ctx{Prop: &Property{ID: prop}, Phase: phase, Tier: tier, Seed: seed, Idx: idx, R: CaseRand(seed, prop, phase, idx),
+		res: NewResult(), mu: &sync.Mutex{}, TmpDir: tmp}
+}
